@@ -86,7 +86,19 @@ try:
         from ..converters import NestedSequenceConverter
 
         constructor: t.Any = array
-        if isinstance(dtype, type) and issubclass(dtype, generic) and dtype is not generic and _is_concrete(dtype):
+        family_default = {
+            _numpy.floating: _numpy.float64, _numpy.inexact: _numpy.float64, _numpy.complexfloating: _numpy.complex128,
+            _numpy.integer: _numpy.int64, _numpy.signedinteger: _numpy.int64, _numpy.unsignedinteger: _numpy.uint64,
+        }.get(dtype) if isinstance(dtype, type) else None
+        if family_default is not None:
+            # an abstract family of element types: what numpy chooses from the values, unless that is outside the family
+            # (ints for a floating array; floats, for ints beyond 64 bits): then the family's default type (which may refuse)
+            def constructor(val: t.Any, _family: t.Any = dtype, _default: t.Any = family_default) -> t.Any:
+                arr = array(val)
+                if arr.size and not _numpy.issubdtype(arr.dtype, _family):
+                    arr = array(val, dtype=_default)
+                return arr
+        elif isinstance(dtype, type) and issubclass(dtype, generic) and dtype is not generic and _is_concrete(dtype):
             # make the array with the declared element type (numpy would otherwise choose
             # one from the values: float64 for an empty list, int64 where int32 is declared)
             # (not for abstract scalar types like `numpy.floating`, which are not dtypes: numpy chooses there)
